@@ -305,8 +305,15 @@ def run(ctx):
         inner_src = 'a * b + (a | b)'
         inner = make_func(inner_src, 'inner_fn', 2)
         inner_reg = alg.register(inner)
+        inner_sq = make_func('a * a', 'inner_sq', 1)
+        inner_sq_reg = alg.register(inner_sq)
         sources.append(('inner_fn(a, b) >> a', 2))
         sources.append(('inner_fn(~a, b).grade(1) + inner_fn(b, a)', 2))
+        # the result of an inner (numerically registered) function returned as it is, or only through grade(): components that
+        # cancel structurally (u*u of a vector) reach the code printer as zeros
+        sources += [('inner_sq(a)', 2, 'vectors'), ('inner_sq(a - b)', 2, 'vectors'), ('inner_sq(a).grade(0, 2)', 2, 'vectors'), ('inner_sq(a) + 0', 2, 'vectors')]
+        # a coefficient that is itself a fraction (of an inverse, of a quotient, coefficient / coefficient) divided by a number
+        sources += [('b * (a.inv().e1 / 2)', 2, 'vectors'), ('b * ((a / b).e / 4)', 2, 'vectors'), ('a * ((a.e1 / a.e2) / 3)', 2, 'vectors'), ('b * (a.inv().e1 / 2 + 1)', 2, 'vectors')]
         for item in sources:
             src, nargs = item[0], item[1]
             same = len(item) > 2 and item[2] == 'same'
@@ -314,12 +321,13 @@ def run(ctx):
             single = item[2][1] if len(item) > 2 and isinstance(item[2], tuple) else None
             fid[0] += 1
             name = f'f{fid[0]}'
-            extra_direct = {'inner_fn': inner}
-            extra_reg = {'inner_fn': inner_reg}
+            extra_direct = {'inner_fn': inner, 'inner_sq': inner_sq}
+            extra_reg = {'inner_fn': inner_reg, 'inner_sq': inner_sq_reg}
+            vectors = len(item) > 2 and item[2] == 'vectors'
             try:
                 f = make_func(src, name, nargs, extra_direct)
                 f_for_reg = make_func(src, name, nargs, extra_reg)
-                f_for_sym = make_func(src, name + 's', nargs, extra_direct)
+                f_for_sym = make_func(src, name + 's', nargs, extra_reg if ('inner_sq' in src) else extra_direct)
             except SyntaxError:
                 continue
             pats = key_tuples(rng, d, nargs, ['small', 'grades', 'single', 'subset'])
@@ -330,6 +338,8 @@ def run(ctx):
                 pats = [list(base) for _ in pats]
             if single is not None:
                 pats = [[single] for _ in pats]
+            if vectors:
+                pats = [[k for k in full if bin(k).count('1') == 1][:3] for _ in pats]
             if structured:
                 g2 = [k for k in full if bin(k).count('1') == 2]
                 pats[0] = rng.choice([full, [k for k in full if bin(k).count('1') % 2 == 0], g2, [0, 2 ** d - 1], [2 ** d - 1, 1, 2]])
@@ -345,7 +355,7 @@ def run(ctx):
             supported = is_supported(src)
             routes = [('registered', lambda: alg.register(f_for_reg))]
             heavy = src.count('>>') + src.count('@') + src.count('.inv()') + src.count('/') + src.count('**') + src.count('.sw(') + src.count('.proj(') + src.count('.div(')
-            if ((heavy <= 1 and len(src) < 60) or same or single is not None) and not (structured and len(pats[0]) > 8):
+            if ((heavy <= 1 and len(src) < 60) or same or single is not None or vectors) and not (structured and len(pats[0]) > 8):
                 routes.append(('registered-symbolic', lambda: alg.register(symbolic=True)(f_for_sym)))
             for rname, mk in routes:
                 ctx.case({**case, 'route': rname}, tag=rname + (':supported' if supported else ':other'))
